@@ -40,8 +40,15 @@ def case(draw, tier):
     dup = None
     if nodes:
         x = draw(st.sampled_from(nodes))
-        mode = draw(st.sampled_from(["bias", "coef", "fn", "input"]))
+        mode = draw(st.sampled_from(["bias", "coef", "fn", "input", "passive"]))
         dup = {"of": x["id"], "near": mode}
+        if mode == "passive":
+            # the twin reads one input passively (wiring-time tag): same definition, same sources, different activation
+            plain = [k for k, r in enumerate(x["ins"]) if isinstance(r, str)]
+            if len(x["ins"]) >= 2 and plain and not x.get("active"):
+                dup["slot"] = draw(st.sampled_from(plain))
+            else:
+                dup["near"] = mode = "bias"
         if mode == "input":
             slot = draw(st.integers(0, len(x["ins"]) - 1))
             others = [s["id"] for s in stmts if (s["op"] == "src" or (s["op"] == "node" and "out" in s)) and s["id"] != x["ins"][slot] and s["id"] != x["id"]]
@@ -60,7 +67,21 @@ def case(draw, tier):
                 dup["slot"] = slot
             else:
                 dup["near"] = "bias"
-    return {"prog": prog, "perms": perms, "dup": dup}
+    # projection twins: two nodes with the same definition and configuration that read two equal-typed projections of ONE
+    # argument (fields of a bundle / elements of a list) inside a sub-program - they differ in an input and must stay distinct
+    twins = None
+    if draw(st.integers(0, 2)) == 0:
+        shape = draw(st.sampled_from(["TSB", "TSL"]))
+        n = draw(st.integers(2, 3))
+        i, j = draw(st.lists(st.integers(0, n - 1), min_size=2, max_size=2, unique=True))
+        times = draw(gen.time_set(start, start + horizon - 1, 1, 6))
+        script = []
+        for t in times:
+            idx = draw(st.lists(st.integers(0, n - 1), min_size=1, max_size=n, unique=True))
+            script.append([t, [{"k": "i", "i": k, "op": {"k": "set", "v": draw(st.integers(1, 40))}} for k in idx]])
+        twins = {"shape": shape, "n": n, "i": i, "j": j, "script": script, "fn": draw(st.sampled_from(["sum", "acc", "count"])),
+                 "bias": draw(st.integers(0, 3)), "extra_arg": draw(st.booleans())}
+    return {"prog": prog, "perms": perms, "dup": dup, "twins": twins}
 
 
 def strategy(tier):
@@ -108,6 +129,9 @@ def _variant(prog, dup, near, uniq):
             x2["coef"][0] += 1
         elif m == "fn":
             x2["fn"] = "acc" if x2.get("fn") == "sum" else "sum"
+        elif m == "passive":
+            x2["ins"] = list(x2["ins"])
+            x2["ins"][dup["slot"]] = {"r": x2["ins"][dup["slot"]], "passive": True}
         else:
             x2["ins"] = list(x2["ins"])
             x2["ins"][dup["slot"]] = dup["other"]
@@ -121,6 +145,26 @@ def _variant(prog, dup, near, uniq):
                                      {"id": "SK2", "op": "node", "ins": ["XDUP"], "uniq": uniq, "bias": 7}]
     p["stmts"] = gen.topo_order(p["stmts"], list(range(len(p["stmts"]))))
     return p
+
+
+def _twins_prog(prog, tw, nested, swap, uniq):
+    """the sub-program G(p[, q]) = 1000 * f(p[i]) + f(p[j]) applied inlined or as a nested graph, twins wired in either order"""
+    schema = ("TSB[" + ",".join(f"f{k}:TS[int]" for k in range(tw["n"])) + "]") if tw["shape"] == "TSB" else f"TSL[TS[int],{tw['n']}]"
+    def twin(name, k):
+        return {"id": name, "op": "node", "ins": [{"arg": 0, "path": [k]}], "out": "TS[int]", "fn": tw["fn"], "bias": tw["bias"], "uniq": uniq,
+                "log_inputs": False}
+    a, b = twin("ta", tw["i"]), twin("tb", tw["j"])
+    body = ([b, a] if swap else [a, b]) + [{"id": "mix", "op": "node", "ins": ["ta", "tb"], "out": "TS[int]", "fn": "sum", "coef": [1000, 1],
+                                            "log_inputs": False}]
+    params = [schema] + (["TS[int]"] if tw["extra_arg"] else [])
+    sub = {"params": params, "out": "TS[int]", "stmts": body, "ret": "mix"}
+    stmts = [{"id": "TWP", "op": "src", "schema": schema, "script": tw["script"]}]
+    ins = ["TWP"]
+    if tw["extra_arg"]:
+        stmts.append({"id": "TWQ", "op": "src", "schema": "TS[int]", "script": [[prog["start"], [{"k": "set", "v": 5}]]]})
+        ins.append("TWQ")
+    stmts += [{"id": "TWG", "op": "nested" if nested else "inline", "sub": "GT", "ins": ins}, {"id": "TWR", "op": "node", "ins": ["TWG"]}]
+    return {"start": prog["start"], "end": prog["end"], "stmts": stmts, "subs": {"GT": sub}}
 
 
 def check(case, ctx) -> Result:
@@ -189,6 +233,30 @@ def check(case, ctx) -> Result:
             for lbl in ("SK1", "SK2"):
                 if lbl not in {n["l"] for n in ra["graph"]["nodes"]}:
                     res.violations.append(Viol("sink_merged", f"sink {lbl} is missing from the compiled graph"))
+    # ---- (3) projection twins inside a sub-program: inlined / nested x twin order x intern-eligible / forced unique
+    tw = case.get("twins")
+    if tw is not None and not res.violations:
+        ref = None
+        for nested in (False, True):
+            for swap in (False, True):
+                for uniq in (False, True):
+                    what = f"twins({'nested' if nested else 'inlined'}, {'b first' if swap else 'a first'}, {'unique' if uniq else 'intern-eligible'})"
+                    r = _run(ctx, _twins_prog(prog, tw, nested, swap, uniq), res, what)
+                    if r is None:
+                        return res
+                    stream = [(t, v) for t, v, _ in Trace(r["trace"]).stream("TWR")]
+                    if ref is None:
+                        ref = (what, stream)
+                    elif stream != ref[1]:
+                        k = next((x for x, (u, v) in enumerate(zip(stream, ref[1])) if u != v), min(len(stream), len(ref[1])))
+                        res.violations.append(Viol("projection_twins_merged", f"G(p) = 1000*f(p[{tw['i']}]) + f(p[{tw['j']}]) over {tw['shape']}: {what} gives {stream[k:k + 3]} at tick #{k} but {ref[0]} gives {ref[1][k:k + 3]}",
+                                                   {"nested": nested}))
+                        break
+                if res.violations:
+                    break
+            if res.violations:
+                break
+        res.labels.append("projection_twins")
     res.nontrivial = moved >= 2 and near_ok
     res.summary = {"orders": orders[:2], "dup": dup, "nodes": base[1] if base else None}
     return res
